@@ -8,6 +8,7 @@ Model + oracle: lean/CnvVerif/Model/Coverage.lean, Driver/Coverage.lean (`handle
 from __future__ import annotations
 
 import functools
+import json
 import math
 import os
 import shutil
@@ -37,7 +38,14 @@ RULE = ("op cov: synthetic coordinate-sorted BAM (1-3 contigs incl. names whose 
         "row within 1e-5 (clause cli_written_file_is_the_table); bare `-p` not generated (proposed_fixes/"
         "C09-cli-processes-bare.md); exhaustive small scope: every read [a,b) within 0..6 against every bin [s,e) "
         "within 0..7. op chunks: to_chunks on 0..40 raw lines with comments, sizes 1..8 and 4999..10001 lines at the "
-        "default size. non-trivial = valid input with a bin of positive depth; distinct by hash")
+        "default size. op covsched (round 4): 2-3 contigs x 6-14 distinct BED lines x 20-120 reads, runs pileup / count "
+        "with 2-4 processes and chunk sizes 1..n/2 where the worker functions (_bedcov, _rdc) are delayed per task so "
+        "that the REAL pool finishes in reverse / a random / its natural order; every worker logs take and finish; "
+        "the observed event list is replayed through the small-step pool model and the model's table must be the "
+        "real one (clause same_table_any_worker_schedule + the clauses of op cov). tag cigar-rich: reads with 2-6 "
+        "aligned blocks separated by I / D / N / P, two of them in a row, insertion after the leading clip, H+S at "
+        "both ends. non-trivial = valid input with a bin of positive depth (covsched: a pool run in which at least "
+        "two tasks finished); distinct by hash")
 EXHAUSTIVE = {"quick": False, "thorough": False}
 ASSUMPTIONS = [
     "regions file lines are records or '#' comments (what to_chunks recognises); every record has the same number "
@@ -48,7 +56,11 @@ ASSUMPTIONS = [
     ">= 6 columns (a 5-column BED whose 4th field is one of . + - is read by --count as a Picard interval list)",
     "BAM input only (no CRAM); the fasta argument names a FASTA of the contigs and is irrelevant to the result",
     "worker schedules: model = Executor.map returns results in submission order for every completion order "
-    "(proved for every permutation in the model; the real pool is exercised with 1,2,3,16 processes)",
+    "(proved for every permutation in the model; the real pool is exercised with 1,2,3,16 processes); round 4: a "
+    "small-step pool (workers take any waiting task, finish in any interleaving, results stored by submission "
+    "index) with theorems over every event list, exercised by replaying the event lists observed in the real pool "
+    "under forced completion orders; that concurrent.futures stores each result in the future of its submission "
+    "and that Executor.map reads the futures in order remains a contract",
     "log2 itself is checked as 2**log2 == depth to 1e-9 (math.log / np.log2 are third-party numerics)",
     "pileup depth with deletions / ref-skips follows the samtools-bedcov contract (deleted and skipped reference "
     "positions count as covered); the property claims equality of the algorithms only without indels",
@@ -102,6 +114,43 @@ def _cigar(rng, indels, length=None):
     return [list(o) for o in ops]
 
 
+def _rich_cigar(rng):
+    """CIGAR-rich reads (round 4): 2..6 aligned blocks (M / = / X, some of length 1) separated by insertions,
+    deletions, reference skips and padding, also two of them in a row (D next to N, I next to D), an insertion
+    right after the leading clip, hard + soft clips at both ends"""
+    P = 6
+    ops = []
+    if rng.random() < 0.3:
+        ops.append((H, rng.randint(1, 9)))
+    if rng.random() < 0.5:
+        ops.append((S, rng.randint(1, 12)))
+        if rng.random() < 0.3:
+            ops.append((I, rng.randint(1, 4)))
+    nblocks = rng.randint(2, 6)
+    for b in range(nblocks):
+        ops.append((rng.choice([M, M, M, EQ, X]), rng.choice([1, 1, 2, 5, rng.randint(3, 40)])))
+        if b < nblocks - 1:
+            sep = [rng.choice([(I, rng.randint(1, 6)), (D, rng.randint(1, 25)), (N, rng.randint(1, 300)),
+                               (D, 1), (P, rng.randint(1, 3))])]
+            if rng.random() < 0.3:
+                sep.append(rng.choice([(N, rng.randint(1, 60)), (D, rng.randint(1, 9)), (I, 2)]))
+            if all(o in (I, P) for o, _l in sep) and rng.random() < 0.5:
+                sep.append((D, rng.randint(1, 7)))
+            ops += sep
+    if rng.random() < 0.4:
+        ops.append((S, rng.randint(1, 12)))
+    if rng.random() < 0.2:
+        ops.append((H, rng.randint(1, 9)))
+    # htslib merges nothing: adjacent equal ops are legal; keep them apart anyway so that the CIGAR reads naturally
+    out = []
+    for o, l in ops:
+        if out and out[-1][0] == o:
+            out[-1][1] += l
+        else:
+            out.append([o, l])
+    return out
+
+
 def _flag(rng):
     r = rng.random()
     if r < 0.35:
@@ -146,14 +195,14 @@ def _bins(rng, contigs, nmax):
     return recs
 
 
-def _reads(rng, contigs, nreads, indels, edges, noseq=False):
+def _reads(rng, contigs, nreads, indels, edges, noseq=False, rich=False):
     """reads placed uniformly, on bin edges, and around contig ends; returned coordinate-sorted"""
     out = []
     for tid, (name, L) in enumerate(contigs):
         n = nreads // len(contigs) + (1 if tid < nreads % len(contigs) else 0)
         my_edges = [e for (c, e) in edges if c == name] or [0]
         for _ in range(n):
-            cg = _cigar(rng, indels)
+            cg = _rich_cigar(rng) if (rich and rng.random() < 0.7) else _cigar(rng, indels)
             rl = sum(l for op, l in cg if op in (M, D, N, EQ, X))
             r = rng.random()
             if r < 0.45:
@@ -268,14 +317,14 @@ def _with_cli(rng, case):
     return case
 
 
-def _case(rng, k, nreads=None, nbins=None, tag=None, comments=None, odd=None, cli=None):
+def _case(rng, k, nreads=None, nbins=None, tag=None, comments=None, odd=None, cli=None, rich=False):
     names = rng.choice(CONTIG_SETS)[: rng.randint(1, 3)]
     contigs = [[n, rng.randint(200, 3000)] for n in names]
     indels = rng.random() < 0.4
     recs = _bins(rng, contigs, nbins or rng.choice([3, 10, 30, 60]))
     edges = [(c, x) for (c, s, e) in recs for x in (s, e)]
     n = nreads if nreads is not None else rng.choice([0, 1, 5, 40, 150, 300, 600])
-    reads = _reads(rng, contigs, n, indels, edges, noseq=rng.random() < 0.3)
+    reads = _reads(rng, contigs, n, indels, edges, noseq=rng.random() < 0.3, rich=rich)
     far = rng.random() < 0.1
     if far:  # genome-scale coordinates: the same layout moved far down the contigs
         off = dict((nm, rng.choice([2 ** 24 + 1, 123456789, 2 ** 27 + 5, 248000000])) for nm in names)
@@ -360,6 +409,203 @@ def _chunk_case(rng, n=None, size=None, tag="chunks"):
         else:
             lines.append("chr%d\t%d\t%d\tg%d\n" % (rng.randint(1, 3), k, k + rng.randint(0, 9), k))
     return {"op": "chunks", "tag": tag, "in": {"lines": lines, "size": size}}
+
+
+# ------------------------------------------------------------------------------------------------
+# worker schedules (op covsched, round 4): the REAL pool is run with per-task delays so that the workers finish in
+# an adversarial order; every worker logs when it takes and when it finishes a task; the observed event list is
+# replayed through the small-step pool model (lean/CnvVerif/Model/CoverageSched.lean)
+
+_PLAN = None  # set in the harness worker before cnvkit's pool forks its workers (fork start method)
+
+
+def _sched_log(kind, key):
+    import time
+    fd = os.open(_PLAN["log"], os.O_WRONLY | os.O_APPEND | os.O_CREAT, 0o600)
+    try:
+        os.write(fd, (json.dumps([kind, key, os.getpid(), time.monotonic_ns()]) + "\n").encode())
+    finally:
+        os.close(fd)
+
+
+def _delayed_bedcov(args):
+    """stands in for cnvlib.coverage._bedcov inside the worker processes: same result, after a planned delay"""
+    import time
+    with open(args[0]) as f:
+        key = f.readline().rstrip("\n")  # a chunk is known by its first line (the lines of these cases are distinct)
+    _sched_log("s", key)
+    time.sleep(_PLAN["delay"].get(key, 0.0))
+    out = _PLAN["bedcov"](args)
+    _sched_log("f", key)
+    return out
+
+
+def _delayed_rdc(args):
+    """stands in for cnvlib.coverage._rdc: one task per chromosome"""
+    import time
+    key = str(args[1].chromosome.iat[0])
+    _sched_log("s", key)
+    time.sleep(_PLAN["delay"].get(key, 0.0))
+    out = _PLAN["rdc"](args)
+    _sched_log("f", key)
+    return out
+
+
+def _observed_events(log_path, index_of_key, ntasks):
+    """the pool's event list in the model's alphabet: [0, w, k] worker w took the k-th waiting task, [1, w] worker w
+    finished; workers are numbered in the order in which they first show up"""
+    if not os.path.exists(log_path):
+        return [], 0
+    recs = []
+    with open(log_path) as f:
+        for ln in f:
+            kind, key, pid, t = json.loads(ln)
+            recs.append((int(t), kind, key, int(pid)))
+    recs.sort()
+    pending, workers, evs = list(range(ntasks)), {}, []
+    for _t, kind, key, pid in recs:
+        w = workers.setdefault(pid, len(workers))
+        if kind == "s":
+            k = pending.index(index_of_key[key])
+            pending.pop(k)
+            evs.append([0, w, k])
+        else:
+            evs.append([1, w])
+    return evs, len(workers)
+
+
+def _sched_case(rng, k):
+    names = rng.choice(CONTIG_SETS)[: rng.choice([2, 3, 3])]
+    contigs = [[n, rng.randint(400, 1500)] for n in names]
+    recs = _bins(rng, contigs, rng.choice([6, 9, 14]))
+    if rng.random() < 0.5:
+        rng.shuffle(recs)
+    seen, uniq = set(), []
+    for r in recs:  # distinct lines: a chunk file is recognised by its first line
+        if tuple(r) not in seen:
+            seen.add(tuple(r))
+            uniq.append(r)
+    bed = [[c, s, e, ["b%d" % j]] for j, (c, s, e) in enumerate(uniq)]
+    if rng.random() < 0.3:
+        bed.insert(rng.randint(0, len(bed)), "#chrom\tstart\tend\tname")
+    edges = [(c, x) for (c, s, e) in uniq for x in (s, e)]
+    reads = _reads(rng, contigs, rng.choice([20, 60, 120]), rng.random() < 0.3, edges)
+    n = len(uniq)
+    runs = []
+    for algo in ("pileup", "count", "pileup"):
+        procs = rng.choice([2, 2, 3, 4])
+        size = rng.choice([1, 2, 3, max(1, n // 3), max(1, n // 2)]) if algo == "pileup" else 5000
+        # delay plan: rank of each task in the wanted completion order (reverse, or a random permutation)
+        runs.append([algo, procs, size, rng.choice(["reverse", "reverse", "random", "none"]), rng.randint(0, 10 ** 6)])
+    runs.append(["pileup", 1, 5000, "none", 0])
+    runs.append(["count", 1, 5000, "none", 0])
+    return {"op": "covsched", "tag": "sched", "in": {"contigs": contigs, "reads": reads, "bed": bed,
+                                                     "q": rng.choice([0, 0, 10, 30]), "runs": runs}}
+
+
+def _run_sched(case):
+    """do_coverage with the worker functions delayed and logged; returns per run the table and the observed events"""
+    import random
+    import pysam  # noqa: F401
+    from cnvlib import coverage, parallel
+    global _PLAN
+    i = case["in"]
+    d = tempfile.mkdtemp(dir="/var/tmp", prefix="c09s-")
+    old_tmp = tempfile.tempdir
+    tempfile.tempdir = d
+    saved = (coverage._bedcov, coverage._rdc, coverage.to_chunks)
+    try:
+        bam = os.path.join(d, "s.bam")
+        _write_bam(bam, i["contigs"], i["reads"])
+        pysam.index(bam)
+        bed = os.path.join(d, "r.bed")
+        with open(bed, "w") as f:
+            f.write(_bed_text(i["bed"]))
+        records = [_bed_text([l]).rstrip("\n") for l in i["bed"] if not isinstance(l, str)]
+        res = []
+        for k, (algo, procs, size, plan, pseed) in enumerate(i["runs"]):
+            prng = random.Random(pseed)
+            log = os.path.join(d, "log%d" % k)
+            if algo == "pileup":
+                keys = [records[j] for j in range(0, len(records), size)]  # first line of each chunk
+            else:
+                keys = sorted({l[0] for l in i["bed"] if not isinstance(l, str)})  # order fixed below, from the table
+            rank = list(range(len(keys)))
+            if plan == "reverse":
+                rank.reverse()
+            elif plan == "random":
+                prng.shuffle(rank)
+            delay = {} if plan == "none" else dict((key, 0.02 + 0.03 * rank[j]) for j, key in enumerate(keys))
+            _PLAN = {"log": log, "delay": delay, "bedcov": saved[0], "rdc": saved[1]}
+            coverage._bedcov, coverage._rdc = _delayed_bedcov, _delayed_rdc
+            coverage.to_chunks = parallel.to_chunks if size == 5000 else functools.partial(parallel.to_chunks, chunk_size=size)
+            try:
+                cn = coverage.do_coverage(bed, bam, by_count=(algo == "count"), min_mapq=i["q"], processes=procs)
+            except Exception as e:  # noqa: BLE001
+                res.append({"err": type(e).__name__, "msg": str(e)[:200]})
+                continue
+            finally:
+                coverage._bedcov, coverage._rdc, coverage.to_chunks = saved
+            r = _rows(cn)
+            if algo == "count" and "rows" in r:  # one task per chromosome, in the order in which the table lists them
+                keys = list(dict.fromkeys(x[0] for x in r["rows"]))
+            try:
+                evs, seen = _observed_events(log, dict((key, j) for j, key in enumerate(keys)), len(keys))
+            except (KeyError, ValueError) as e:
+                evs, seen = None, 0
+                r["events_error"] = "%s: %s" % (type(e).__name__, e)
+            r["events"], r["nw"] = evs, max(procs, seen, 1)
+            res.append(r)
+        return res
+    finally:
+        _PLAN = None
+        coverage._bedcov, coverage._rdc, coverage.to_chunks = saved
+        tempfile.tempdir = old_tmp
+        shutil.rmtree(d, ignore_errors=True)
+
+
+def _judge_sched(case, impl, resp):
+    spec = list(resp.get("spec") or [])
+    dis = []
+    for k, (run, m, r) in enumerate(zip(case["in"]["runs"], resp["out"], impl)):
+        what = f"sched run {k} {run[0]} p={run[1]} chunk={run[2]} plan={run[3]}"
+        if "err" in m:
+            if "err" not in r:
+                dis.append(f"{what}: model refuses the regions file ({m['err']}), implementation returned a table")
+            continue
+        if "err" in r:
+            spec.append("raises_" + r["err"])
+            continue
+        if "nonfinite" in r:
+            spec.append("depth_and_log2_are_finite_numbers")
+            continue
+        if r.get("events") is None:
+            dis.append(f"{what}: the worker log could not be read back as a schedule ({r.get('events_error')})")
+            continue
+        if m.get("unfinished"):
+            dis.append(f"{what}: the observed worker events {r['events']} leave the model's pool unfinished")
+            continue
+        mr, ir = m["rows"], r["rows"]
+        if len(mr) != len(ir):
+            dis.append(f"{what}: {len(mr)} model rows, {len(ir)} implementation rows")
+            continue
+        for j, (a, b) in enumerate(zip(mr, ir)):
+            if a[:4] != b[:4]:
+                dis.append(f"{what} row {j}: bin model {a[:4]} impl {b[:4]}")
+                break
+            dm = Fraction(a[4])
+            if not _close(float(Fraction(b[4])), float(dm)):
+                dis.append(f"{what} row {j} {a[:3]}: depth model {a[4]} impl {float(Fraction(b[4]))}")
+                break
+            lg = float(Fraction(b[5]))
+            if a[5] is not None:
+                if Fraction(b[5]) != Fraction(a[5]):
+                    dis.append(f"{what} row {j}: log2 model {a[5]} impl {lg}")
+                    break
+            elif dm <= 0 or not _close(lg, math.log2(dm)):
+                dis.append(f"{what} row {j}: log2 impl {lg} is not log2 of model depth {a[4]}")
+                break
+    return sorted(set(spec)), dis, None
 
 
 def corpus():
@@ -463,6 +709,12 @@ def gen_cases(rng, tier):
             cases.append(_with_cli(rng, {"op": "cov", "tag": "default-chunk-size", "in": inp}))
     m = {"quick": 1500, "thorough": 10000, "search": 300}[tier]
     cases += [_chunk_case(rng) for _ in range(m)]
+    # worker schedules of the real pool replayed through the small-step pool model (drawn last: the cases above
+    # stay what they were for a given seed)
+    cases += [_sched_case(rng, k) for k in range({"quick": 16, "thorough": 80, "search": 8}[tier])]
+    # CIGAR-rich BAMs: several indels / skips / pads per read (Props/C09Indel.lean says what each algorithm reports)
+    for k in range({"quick": 8, "thorough": 50, "search": 6}[tier]):
+        cases.append(_case(rng, k, nreads=rng.choice([40, 150, 300]), tag="cigar-rich", rich=True))
     if tier != "search":
         for nl in ({"quick": [5001], "thorough": [4999, 5000, 5001, 10000, 10001]}[tier]):
             cases.append(_chunk_case(rng, n=nl, size=5000, tag="chunks-default-size"))
@@ -631,6 +883,8 @@ def _api(coverage, bed, bam, algo, q, procs, fasta, style):
 def run_impl(case):
     from cnvlib import coverage, parallel
     i = case["in"]
+    if case["op"] == "covsched":
+        return _run_sched(case)
     d = tempfile.mkdtemp(dir="/var/tmp", prefix="c09-")
     old_tmp = tempfile.tempdir
     tempfile.tempdir = d  # to_chunks / pysam put their temporary files here, not under /tmp
@@ -700,6 +954,15 @@ def to_line(case, impl):
     i = case["in"]
     if case["op"] == "chunks":
         line = {"op": "chunks", "in": {"lines": i["lines"], "size": i["size"]}}
+    elif case["op"] == "covsched":
+        ok = isinstance(impl, list)
+        runs = [[run[0], run[1], run[2], (impl[k].get("nw") or run[1]) if ok else run[1],
+                 (impl[k].get("events") or []) if ok else []] for k, run in enumerate(i["runs"])]
+        line = {"op": "covsched", "in": {"contigs": i["contigs"], "reads": i["reads"], "q": i["q"], "runs": runs,
+                                         "bed": [None if isinstance(l, str) else l for l in i["bed"]]}}
+        if ok:
+            line["impl"] = [({"rows": r["rows"]} if "rows" in r else {}) for r in impl]
+        return line
     else:
         line = {"op": "cov", "in": {"contigs": i["contigs"], "reads": i["reads"], "q": i["q"], "runs": i["runs"],
                                     "bed": [None if isinstance(l, str) else l for l in i["bed"]]}}
@@ -717,6 +980,8 @@ def judge(case, impl, resp):
         return ["raises_" + impl["__error__"]], [], None
     if "error" in resp:
         return [], ["model error: " + resp["error"]], None
+    if case["op"] == "covsched":
+        return _judge_sched(case, impl, resp)
     spec = list(resp.get("spec") or [])
     dis = []
     if case["op"] == "chunks":
@@ -768,6 +1033,8 @@ def nontrivial(case, impl, resp):
         return False
     if case["op"] == "chunks":
         return len(impl) >= 2
+    if case["op"] == "covsched":  # a pool run in which at least two tasks finished
+        return bool(resp.get("valid")) and any(sum(1 for e in (r.get("events") or []) if e[0] == 1) >= 2 for r in impl)
     return bool(resp.get("valid")) and any("rows" in r and any(Fraction(x[4]) > 0 for x in r["rows"]) for r in impl)
 
 
@@ -777,6 +1044,15 @@ def shrink(case):
         ls = i["lines"]
         for k in range(len(ls)):
             yield {"op": "chunks", "tag": "shrunk", "in": {"lines": ls[:k] + ls[k + 1:], "size": i["size"]}}
+        return
+    if case["op"] == "covsched":
+        runs, reads = i["runs"], i["reads"]
+        for k in range(len(runs)):
+            if len(runs) > 1:
+                yield {"op": "covsched", "tag": "shrunk", "in": dict(i, runs=runs[:k] + runs[k + 1:])}
+        for part in (reads[: len(reads) // 2], reads[len(reads) // 2:]):
+            if len(part) < len(reads):
+                yield {"op": "covsched", "tag": "shrunk", "in": dict(i, reads=part)}
         return
 
     def mk(**kw):
